@@ -207,6 +207,11 @@ def dep_program(rng) -> str:
 
 
 TEST_PROGRAMS = [
+    # several defining rules, the dynamic sum / the cyclic predicate NOT in the last one (too_complex_rules looks at every rule)
+    "{assign(T,W)} :- task(T), worker(W). load(W,L) :- worker(W), L = #sum{D,T : assign(T,W), dur(T,D)}. load(W,0) :- idle(W). m(M) :- M = #max{L : load(_,L)}.",
+    "{a(X)} :- d(X). c(X,N) :- d(X), N = #count{Y : a(Y), Y < X}. c(X,0) :- e(X). c(X,1) :- f(X). g :- c(X,N), c(Y,N), X != Y.",
+    "{a(X)} :- d(X). p(X) :- q(X), a(X). q(X) :- p(X), d(X). r(X) :- q(X). r(X) :- d(X), e(X). m(M) :- M = #min{X : r(X)}.",
+    "{a(X)} :- d(X). s(X) :- d(X), 1 <= #sum{Y : a(Y)}. s(X) :- e(X). s(X) :- f(X), not g(X). h :- s(A), s(B), A != B.",
     "{a(X)} :- c(X). b(X) :- -q(X), a(X).",
     "{ -a }.",
     "a ; #false.",
